@@ -267,7 +267,7 @@ def generate(tier):
     return out
 
 
-RULE = ('one-field elements: every literal kind (int, suffixed int, float, suffixed float, bool, char, str, byte, byte string) '
+RULE = ('wide (4-5 variants, default marker at every position; 4-5 fields with one or two expression fields) and very wide (12 fields, expression at positions 0, 1, 9, 10, 11) elements, raw-identifier field names; one-field elements: every literal kind (int, suffixed int, float, suffixed float, bool, char, str, byte, byte string) '
         'and non-literal expression x field type {natural type, std type reachable by Into, user type with From<literal type>} '
         'x spelling {= lit, expression = e, expr = e, expression(e), expr(e)} x element {named/tuple struct, middle named '
         'variant, last tuple variant, union field, sole union field}; two-field elements over a representative list incl. the '
